@@ -25,7 +25,7 @@ Operations of a history (JSON lists):
   ["hnew"] / ["hp"] create a long-lived HCommand / console help through it (judged against the palette
                     it captured at creation; how often that differs from the global one is counted)
 how: "g" global configuration | "cX" colors_conf=X | "nc" no_color=True | "pc" palette class |
-     "pcX" palette class + colors_conf=X | "po" palette object (made from the global configuration in
+     "pcX" palette class + colors_conf=X | "f1" / "f2" [+X] first / second class made by one factory | "po" palette object (made from the global configuration in
      force at its first use) | "ponc" palette object + no_color=True
 """
 
@@ -304,6 +304,13 @@ class World:
             return {"no_color": True}, ("nc", "std")
         if how[0] == "c":
             return {"colors_conf": self._conf(how[1])}, (how[1], "std")
+        if how[0] == "f":                                   # "f1" / "f2" [+ spec]: class made by a factory
+            if p.name not in R.HAS_FACTORY_CLASS:
+                raise HistoryDisabled(how)
+            cls = p.factory_class(int(how[1]))
+            if len(how) == 3:
+                return {"palette": cls, "colors_conf": self._conf(how[2])}, (how[2], how[:2])
+            return {"palette": cls}, (self.global_spec, how[:2])
         if p.palette_class is None or p.name not in R.HAS_PALETTE_CLASS:
             raise HistoryDisabled(how)
         if how == "pc":
